@@ -188,6 +188,14 @@ def run_impl(case):
     # objects derived from this one (bootstrap samples under every built-in configuration, swap(), the same data as a
     # GroupScores and its samples) are Scores objects too: their cm() must count their own pos / neg arrays
     derived = []
+    if len(pos) + len(neg):
+        # swap() as the very first call on a fresh object (nothing has looked at its arrays yet)
+        fresh = Scores(pos.copy(), neg.copy(), nb_easy_pos=case["ep"], nb_easy_neg=case["en"], score_class=case["sc"], equal_class=case["ec"])
+        d = fresh.swap()
+        derived.append({"what": "swap-first-on-fresh-object", "pos": [enc(float(x)) for x in d.pos], "neg": [enc(float(x)) for x in d.neg],
+                        "ep": int(d.nb_easy_pos), "en": int(d.nb_easy_neg), "sc": str(getattr(d.score_class, "value", d.score_class)),
+                        "ec": str(getattr(d.equal_class, "value", d.equal_class)),
+                        "cm": [[int(v) for v in m.reshape(-1)] for m in d.cm(thr).matrix]})
     if case.get("derive") and len(pos) and len(neg):
         from score_analysis import BootstrapConfig, GroupScores
         rs = np.random.RandomState(case["derive"])
